@@ -117,6 +117,37 @@ class World:
         d["signature"] = self.pki.sign(self.attacker, sc.enc_tbs_cert(d["toBeSigned"]))
         return self.add(d, rec["key"], rec["issuer"], tag)
 
+    def repoint(self, rec, target, tag=None):
+        """the SAME to-be-signed bytes and the SAME signature value as rec, but the (unsigned) issuer field names `target`
+        (a record; None = self): what an attacker can build from any certificate it has seen, without any key"""
+        d = copy.deepcopy(rec["d"])
+        d["issuer"] = ("self", "sha256") if target is None else ("sha256AndDigest", sc.hashed_id8(target["d"]))
+        return self.add(d, rec["key"], target, tag or f"repointed/{rec['tag']}/to/{'self' if target is None else target['tag']}")
+
+    def graft(self, rec, what, tag=None):
+        """the signature value (and issuer field) of rec on an ALTERED to-be-signed body: 'key' = the attacker's own subject key,
+        'app' = other application permissions, 'validity' = a longer validity period, 'issue' = other issuing permissions"""
+        d = copy.deepcopy(rec["d"])
+        tbs = d["toBeSigned"]
+        key = rec["key"]
+        if what == "key":
+            key = self.pki.new_key()
+            tbs["verifyKeyIndicator"] = ("verificationKey", self.pki.pub(key))
+        elif what == "app":
+            old = [e["psid"] for e in tbs.get("appPermissions", [])]
+            al = allowed_of(rec["issuer"]) if rec["issuer"] is not None else list(U)
+            new = [p for p in al if p not in old][:1] + old[:1] or [37]
+            tbs["appPermissions"] = [{"psid": p} for p in sorted(set(new))]
+        elif what == "validity":
+            unit, n = tbs["validityPeriod"]["duration"]
+            tbs["validityPeriod"] = {"start": max(0, tbs["validityPeriod"]["start"] - 100000), "duration": (unit, n + 1000)}
+        elif what == "issue":
+            al = allowed_of(rec["issuer"]) if rec["issuer"] is not None else list(U)
+            tbs["certIssuePermissions"] = [sc.issue_entry(al[-2:] or [36], 1)]
+        else:
+            raise ValueError(what)
+        return self.add(d, key, rec["issuer"], tag or f"graft-{what}/{rec['tag']}")
+
     def template(self, app, issue, idnone=False):
         """unsigned request for the issuing API (as OwnCertificate.initialize_certificate builds it)"""
         key = self.pki.new_key()
@@ -223,6 +254,19 @@ def gen_random_history(ctx, n_certs=26, n_ops=60):
         rec["good"] = bool(issuer.get("good")) and not (set(kw) - {"validity"})
         if rng.random() < 0.08:
             w.resign(rec)["good"] = False
+        # keyless forgeries from a certificate the station will (mostly) have verified by the time they are offered: the same
+        # body and signature value under another stated issuer (preferably one whose issuing permissions cover it, so that
+        # only the signature stands in the way), or the signature on an altered body
+        y = rng.random()
+        if y < 0.12 and rec["issuer"] is not None:
+            need = set(sc.app_psids(rec["d"]) or []) | set(p for s_, _ in (sc.issue_entries(rec["d"]) or []) if s_ != "all" for p in s_)
+            others = [c for c in cands if c is not rec["issuer"] and c is not rec]
+            covering = [c for c in others if need <= set(allowed_of(c))]
+            pool = covering if covering and rng.random() < 0.8 else others
+            target = rng.choice(pool) if pool and rng.random() < 0.85 else None
+            w.repoint(rec, target)["good"] = False
+        elif y < 0.16:
+            w.graft(rec, rng.choice(["key", "validity"]))["good"] = False
     # operations: first most certificates are offered in creation order (issuers first), then anything goes
     for r in roots:
         w.op("add_root", r["ix"], -1)
@@ -460,6 +504,93 @@ def gen_reqcert_sweep(ctx):
     # inlineP2pcdRequest naming CA certificates the station holds / does not hold
     w.op("verify", w.message(at, "digest", 36, extra={"inlineP2pcdRequest": [sc.hashed_id8(x["d"])[-3:] for x in
                                                                               (root, aa, xroot, aa2, at)]}))
+    return w.history()
+
+
+# ---------------------------------------------------------------------------
+# seed C09-11: the outcome of verifying a certificate must not depend on what was verified before. A certificate is the
+# triple (issuer field, to-be-signed bytes, signature value); only the middle part is signed. From every genuine certificate
+# it has seen an attacker can build, without any key, (a) the same body and signature under ANOTHER stated issuer (any CA the
+# station trusts, or 'self'), (b) the same signature on an altered body. Both must stay out of the stores before AND after
+# the genuine certificate has been verified, whichever route it was first verified by (add_*, chain, message signer).
+
+def gen_transplant_sweep(ctx):
+    rng = ctx.rng
+    w = World(rng)
+    root = w.mk("root", None, [36], [("all", 3)], tag="root")
+    root2 = w.mk("root", None, [36], [(U, 2)], tag="root2/explicit")
+    w.op("add_root", root["ix"], -1)
+    w.op("add_root", root2["ix"], -1)
+    aa1 = w.mk("aa", root, [36], [(U[:3], 1)], tag="aa1")
+    aa2 = w.mk("aa", root, [36], [(U, 1)], tag="aa2")
+    aa3 = w.mk("aa", root2, [36], [(U[:1], 1)], tag="aa3/narrow")
+    parent = {id(aa1): root, id(aa2): root, id(aa3): root2}
+
+    def offers(v, j, true_issuer, kind):
+        """every route by which the variant v (stating issuer j) can reach the library"""
+        adder = "add_at" if kind == "at" else "add_aa"
+        out = [[(adder, v["ix"], w.index(j))],
+               [(adder, v["ix"], w.index(true_issuer))],          # the caller attaches the object of the real signer
+               [("verify_chain", [v["ix"]])],
+               [("add_own", v["ix"], w.index(j))]]
+        if kind == "at":
+            psid = (sc.app_psids(v["d"]) or [36])[0]
+            out.append([("verify", w.message(v, "certificate", psid))])
+            if j is not None and id(j) in parent:
+                out.append([("verify_chain", [v["ix"], j["ix"]])])
+                out.append([("verify_chain", [v["ix"], j["ix"], parent[id(j)]["ix"]])])
+                out.append([("verify", w.message(v, "certificate", psid, chain=[j]))])
+            out.append([("verify", w.message(v, "digest", psid))])
+        else:
+            t = w.mk("at", v, U[:1], None, tag="at-under/" + v["tag"])
+            out.append([("verify_chain", [t["ix"], v["ix"]])])
+            out.append([("verify_chain", [t["ix"], v["ix"], root["ix"]])])
+            out.append([("verify", w.message(t, "certificate", 36, chain=[v]))])
+            out.append([("add_at", t["ix"], v["ix"]), ("verify", w.message(t, "digest", 36))])
+        return out
+
+    count = [0]
+
+    def offer_all(v, j, true_issuer, kind, only_first=False):
+        o = offers(v, j, true_issuer, kind)
+        k = count[0] % len(o)            # each route gets to be the FIRST one that sees some variant
+        count[0] += 1
+        for group in (o[k:] + o[:k])[:1 if only_first else None]:
+            for op in group:
+                w.op(*op)
+
+    def variants(rec, true_issuer, kind, targets, grafts, only_first=False):
+        for j in targets:
+            if j is not true_issuer and j is not rec:
+                offer_all(w.repoint(rec, j), j, true_issuer, kind, only_first)
+        for g in grafts:
+            offer_all(w.graft(rec, g), true_issuer, true_issuer, kind, only_first)
+
+    # authorities: cold (aa1 not yet verified by this station), then warm
+    variants(aa1, root, "aa", [root2, None], ["key"], only_first=True)
+    for a in (aa1, aa2, aa3):
+        w.op("add_aa", a["ix"], parent[id(a)]["ix"])
+    variants(aa1, root, "aa", [root2, aa2, aa3, None], ["key", "issue", "validity"])
+    # tickets: three genuine ones, first verified by three different routes
+    tickets = []
+    for route in ("add", "message", "chain"):
+        app = sorted(rng.sample(U[:3], rng.choice([1, 2])))
+        tickets.append((w.mk("at", aa1, app, None, tag=f"at/warmed-by-{route}"), route))
+    cas = [root, root2, aa2, aa3, None]
+    for t, route in tickets:
+        variants(t, aa1, "at", rng.sample(cas, 2), [rng.choice(["key", "app", "validity"])], only_first=True)   # cold
+    for t, route in tickets:
+        if route == "add":
+            w.op("add_at", t["ix"], aa1["ix"])
+        elif route == "message":
+            w.op("verify", w.message(t, "certificate", sc.app_psids(t["d"])[0]))
+        else:
+            w.op("verify_chain", [t["ix"], aa1["ix"]])
+    for t, route in tickets:
+        variants(t, aa1, "at", cas, ["key", "app", "validity"])
+    # the variants as roots: the configuration API must refuse what is not validly (self-)signed
+    for rec in [c for c in w.certs if c["tag"].startswith("repointed/") and c["tag"].endswith("/to/self")]:
+        w.op("add_root", rec["ix"], -1)
     return w.history()
 
 
@@ -875,7 +1006,8 @@ def run(ctx):
                 "model with an independently computed signature table; after every call the result and the four "
                 "dictionaries (keys, values, attached issuers) and the P2PCD state are compared. Certificates: genuine, "
                 "attacker-signed, re-signed, bit-flipped signatures, wrong/self/sha384 issuer fields, expired/future, "
-                "compressed/off-curve keys, every issuer/subject PSID-set combination over {36,37,638,139}, chain budgets "
+                "compressed/off-curve keys, keyless variants of certificates verified earlier in the same history (same body and "
+                "signature value under another stated issuer; old signature on an altered body), every issuer/subject PSID-set combination over {36,37,638,139}, chain budgets "
                 "0..3. Non-trivial = a certificate entered a store, a message was accepted, or a certificate was issued; "
                 "distinct by certificate/message bytes")
     sc.coder()
@@ -898,6 +1030,7 @@ def run(ctx):
     # audit round
     quick = ctx.tier == "quick"
     run_history(ctx, gen_reqcert_sweep(ctx), "reqcert_sweep")
+    run_history(ctx, gen_transplant_sweep(ctx), "transplant_sweep")
     run_history(ctx, gen_unit_sweep(ctx, [UNITS[i] for i in sorted(ctx.rng.sample(range(len(UNITS)), 4))] if quick else UNITS),
                 "unit_sweep")
     run_history(ctx, gen_psid_sweep(ctx), "psid_sweep")
